@@ -17,6 +17,7 @@ CONSTANTS
   WithTxn = TRUE
   WithCancel = FALSE
   WithAppend = TRUE
+  QueryFlip = FALSE
 INVARIANTS
   CommittedOpenIffFresh
   ValidWhenOpen
